@@ -29,6 +29,31 @@ OPTIMS = {
     "nest": (torch.optim.SGD, {"momentum": 0.8, "weight_decay": 0.01, "nesterov": True}),
     "adam": (torch.optim.Adam, {}),
     "adamwd": (torch.optim.Adam, {"weight_decay": 0.1}),
+    # "any optimizer" (C20 audit item 1): every torch.optim class `fit` can drive (step() without closure, dense gradients)
+    "adadelta": (torch.optim.Adadelta, {}),                       # the optimizer of the repo's own DensityMatrix tutorial
+    "adadelta_wd": (torch.optim.Adadelta, {"rho": 0.8, "weight_decay": 0.1}),
+    "rmsprop": (torch.optim.RMSprop, {}),
+    "rmsprop_mcw": (torch.optim.RMSprop, {"momentum": 0.9, "centered": True, "weight_decay": 0.1}),
+    "adagrad": (torch.optim.Adagrad, {}),
+    "adagrad_wd": (torch.optim.Adagrad, {"weight_decay": 0.1, "lr_decay": 0.1, "initial_accumulator_value": 0.5}),
+    "adamw": (torch.optim.AdamW, {}),
+    "adamw_ams": (torch.optim.AdamW, {"amsgrad": True, "weight_decay": 0.3}),
+    "adamax": (torch.optim.Adamax, {"weight_decay": 0.1}),
+    "nadam": (torch.optim.NAdam, {}),
+    "nadam_dwd": (torch.optim.NAdam, {"weight_decay": 0.1, "decoupled_weight_decay": True}),
+    "adam_ams": (torch.optim.Adam, {"amsgrad": True, "weight_decay": 0.1}),
+    "sgd_max": (torch.optim.SGD, {"maximize": True, "momentum": 0.5, "weight_decay": 0.1}),
+    "adam_max": (torch.optim.Adam, {"maximize": True}),
+    "radam": (torch.optim.RAdam, {"weight_decay": 0.1}),
+    "rprop": (torch.optim.Rprop, {}),
+    "asgd": (torch.optim.ASGD, {"weight_decay": 0.1, "t0": 0}),
+    "sgd_foreach": (torch.optim.SGD, {"foreach": True, "momentum": 0.9, "weight_decay": 0.05}),
+    "adam_foreach": (torch.optim.Adam, {"foreach": True, "weight_decay": 0.1}),
+}
+# learning-rate schedulers for `fit(scheduler=…, scheduler_args=…)` (op field "sched")
+SCHEDULERS = {
+    "steplr": (torch.optim.lr_scheduler.StepLR, {"step_size": 1, "gamma": 0.5}),
+    "explr": (torch.optim.lr_scheduler.ExponentialLR, {"gamma": 0.7}),
 }
 
 
@@ -214,6 +239,13 @@ class Real:
         self.last_ref = tens
         return toks
 
+    def drawn(self, nets):
+        """tokens of the weight matrices the implementation actually holds after an initialising operation — this is what the MODEL is
+        given as "the generator's draws" (the property says the weights are random, not how the generator's stream is consumed; that the
+        values ARE fresh draws is checked by the effect oracles of the C20 harness, and `ref_draws` / `last_ref` keep the exact-stream
+        reference for an auxiliary comparison only)"""
+        return [self.weights_tokens(net) for net in nets]
+
     def changed_uds(self):
         """caller-owned unitary dictionaries whose keys or tensor bytes differ from what the caller put in"""
         return [s for s, ud in sorted(self.uds.items())
@@ -295,12 +327,16 @@ class Real:
                     kw["unitary_dict"] = ud
                 rs = torch.get_rng_state()
                 m["rand"] = [[] for _ in NETS[op["kind"]]]
+                built = None
                 try:
                     st = KINDS[op["kind"]](**kw)
                     self.models[op["slot"]] = st
+                    built = st
                 finally:
                     ws = self.weight_shapes(NETKIND[op["kind"]], op["nv"], op["nh"], op["na"])
                     m["rand"] = self.ref_draws(rs, [(False, ws) for _ in NETS[op["kind"]]])
+                    if built is not None:   # the model is told the weights the implementation drew (see `drawn`)
+                        m["rand"] = self.drawn([getattr(built, n) for n in built.networks])
             elif t == "mkUD":
                 ud, ents = self.make_ud(op["names"] if op["names"] else "empty")
                 self.uds[op["udslot"]] = ud
@@ -318,6 +354,8 @@ class Real:
                     net = PurificationRBM(op["nv"], op["nh"], op["na"], **kw)
                 self.modules[op["mslot"]] = net
                 m["rand"] = self.ref_draws(rs, [(False, self.weight_shapes(op["k"], op["nv"], op["nh"], op["na"]))])[0]
+                if not zw:
+                    m["rand"] = self.drawn([net])[0]
             elif t == "initModule":
                 net = self.modules[op["mslot"]]
                 rs = torch.get_rng_state()
@@ -327,6 +365,8 @@ class Real:
                     net.initialize_parameters()
                 else:
                     net.initialize_parameters(zero_weights=bool(op["zw"]))
+                if not op.get("zw"):
+                    m["rand"] = self.drawn([net])[0]
             elif t == "constructFrom":
                 ud, ents = self.make_ud(op.get("ud"))
                 m["ud"] = ents
@@ -349,17 +389,24 @@ class Real:
                 optimizer, oargs = OPTIMS[op.get("opt", "sgd")]
                 self.events = []
                 rec = _Recorder(self.events)
-                kw = dict(epochs=op.get("epochs", 2), pos_batch_size=2, k=1, lr=op.get("lr", 0.1), callbacks=[rec],
+                kw = dict(epochs=op.get("epochs", 2), pos_batch_size=2, k=1, lr=op.get("lr", 0.1),
+                          callbacks=[rec] + [mk(st) for mk in getattr(self, "extra_callbacks", [])],
                           optimizer=optimizer, optimizer_args=dict(oargs))
+                if op.get("sched"):
+                    kw["scheduler"], sargs = SCHEDULERS[op["sched"]]
+                    kw["scheduler_args"] = dict(sargs)
                 if op["bases"]:
                     kw["input_bases"] = bases
+                self.fit_probe = {"data": (data, data.clone()), "bases": (bases, bases.copy())}
                 m["toks"] = [[] for _ in st.networks]
                 stopped = bool(op.get("stopped")) and not op["bases"] and len(st.networks) == 2
                 if stopped:
                     st.stop_training = True
+                self.fit_probe.update(rng_before=torch.get_rng_state(), stop_before=st.stop_training)
                 try:
                     st.fit(data, **kw)
                 finally:
+                    self.fit_probe.update(rng_after=torch.get_rng_state(), stop_after=st.stop_training)
                     if stopped:
                         st.stop_training = False
                     m["toks"] = [self.all_tokens(getattr(st, n)) for n in st.networks]
@@ -368,6 +415,7 @@ class Real:
                 rs = torch.get_rng_state()
                 m["rand"] = self.ref_draws(rs, [(False, self.net_weight_shapes(getattr(st, n))) for n in st.networks])
                 st.reinitialize_parameters()
+                m["rand"] = self.drawn([getattr(st, n) for n in st.networks])
             elif t == "addUnitary":
                 st = self.models[op["slot"]]
                 u = torch.randn(2, 2, 2, generator=self.gen, dtype=torch.double)
@@ -567,8 +615,11 @@ def run_history(ctx, case, drv_op, hooks, level_fn):
                 lvl = level_fn(op, err)
                 cs = {"plan": case["plan"], "tseed": case["tseed"], "step": k, "op": op}
                 sig = f"{op['t']}"
-                ctx.point(f"{op['t']}.err", lvl if op["t"] in ("save", "saverSave", "train", "constructFrom") else "aux",
-                          err, mw["err"], cs, exact=True, sig=f"{sig}/error-kind", theorem=hooks.theorem(op, "err"))
+                # whether the operation is refused — not WHICH exception type refuses it (no property names one)
+                ctx.point(f"{op['t']}.refused", lvl if op["t"] in ("save", "saverSave", "train", "constructFrom") else "aux",
+                          err is not None, mw["err"] is not None, cs, exact=True, sig=f"{sig}/refused", theorem=hooks.theorem(op, "err"))
+                if err is not None:
+                    ctx.count(f"refusal:{op['t']}:impl={err},model={mw['err']}")
                 iw = tuplify(canon_world(w))
                 cm = tuplify(canon_world(mw))
                 for comp in ("states", "modules", "metas", "files"):
